@@ -1795,6 +1795,13 @@ class _Rewrite(ast.NodeTransformer):
             )
         return node
 
+    def visit_ExceptHandler(self, node):
+        # bare `except:` must not swallow the engine's path-steering BaseExceptions
+        self.generic_visit(node)
+        if node.type is None:
+            node.type = ast.Name("Exception", ast.Load())
+        return node
+
     def visit_Constant(self, node):
         if isinstance(node.value, float):
             return ast.copy_location(
@@ -2093,33 +2100,52 @@ def prove(ctx, claim, timeout=None, extra=()):
     if isinstance(claim, bool):
         claim = z3.BoolVal(claim)
     timeout = timeout or VC_TIMEOUT_MS
-    assumptions = list(ctx.pc) + list(extra)
-    ints = has_int(claim) or any(has_int(c) and has_real(c) for c in assumptions)
-    memo = {}
-    dens = []
     t0 = time.time()
-    if ints or not has_real(claim):
-        s = z3.Solver()
-        s.set("timeout", timeout)
-        for c in assumptions:
-            s.add(c)
-        s.add(z3.Not(claim))
-    else:
-        s = z3.Tactic("qfnra-nlsat").solver()
-        s.set("timeout", timeout)
-        for c in assumptions:
-            if not has_int(c):
-                s.add(norm_bool(c, memo, dens))
-        s.add(z3.Not(norm_bool(claim, memo, dens)))
+    cache = getattr(ctx, "_vcs", None)
+    if cache is None or cache[0] != len(ctx.pc):
+        mixed = any(has_int(c) and has_real(c) for c in ctx.pc)
+        rs = z3.Tactic("qfnra-nlsat").solver()
+        memo = {}
+        dens = []
         seen = set()
+        for c in ctx.pc:
+            if not has_int(c):
+                rs.add(norm_bool(c, memo, dens))
         for d in dens:
             if d.get_id() not in seen:
                 seen.add(d.get_id())
+                rs.add(d != 0)
+        cache = (len(ctx.pc), rs, memo, seen, mixed)
+        ctx._vcs = cache
+    _, rs, memo, seen, mixed = cache
+    ex_mixed = any(has_int(c) and has_real(c) for c in extra)
+    if has_int(claim) or mixed or ex_mixed or not has_real(claim):
+        s = z3.Solver()
+        s.set("timeout", timeout)
+        for c in list(ctx.pc) + list(extra):
+            s.add(c)
+        s.add(z3.Not(claim))
+        r = s.check()
+        model = s.model() if r == z3.sat else None
+    else:
+        s = rs
+        s.set("timeout", timeout)
+        s.push()
+        dens = []
+        memo = {}  # fresh: z3 ast ids may be recycled between calls
+        for c in extra:
+            if not has_int(c):
+                s.add(norm_bool(c, memo, dens))
+        s.add(z3.Not(norm_bool(claim, memo, dens)))
+        for d in dens:
+            if d.get_id() not in seen:
                 s.add(d != 0)
-    r = s.check()
+        r = s.check()
+        model = s.model() if r == z3.sat else None
+        s.pop()
     secs = time.time() - t0
     st = "unsat" if r == z3.unsat else ("sat" if r == z3.sat else "unknown")
-    return VCResult(st, s.model() if r == z3.sat else None, secs, claim)
+    return VCResult(st, model, secs, claim)
 
 
 def prove_eq(ctx, lhs, rhs, timeout=None, extra=()):
